@@ -316,3 +316,115 @@ func c13NameMatching(c *Ctx) {
 func isStringType(v ssa.Value) bool {
 	return strings.HasSuffix(v.Type().Underlying().String(), "string")
 }
+
+// c13FreshPool (R3, provenance of the trust anchors): the pool GetX509Pool returns reflects the CA bytes as they are now.
+// caIndex is either inline PEM or a file path. Every non-nil pool returned must be a pool created in this call
+// (x509.NewCertPool) and filled (AppendCertsFromPEM) from bytes obtained in this call — the inline PEM or the file read
+// now — or come from package-level state looked up under a key derived from those bytes. A pool remembered under the
+// path string survives a rotation of the CA file: peers chaining to the old CA keep being accepted and the configured
+// CA is rejected, for client authentication and for upstream verification alike.
+func c13FreshPool(c *Ctx) {
+	fn := c.M("pkg/mtls", "defaultConfigHooks", "GetX509Pool")
+	if fn == nil {
+		c.Unresolved("C13.R3", "defaultConfigHooks.GetX509Pool")
+		return
+	}
+	fk := funcKey(fn)
+	// bytes read in this call
+	fromBytes := func(v ssa.Value) bool {
+		seen := map[ssa.Value]bool{}
+		var walk func(v ssa.Value, d int) bool
+		walk = func(v ssa.Value, d int) bool {
+			if v == nil || seen[v] || d > 8 {
+				return false
+			}
+			seen[v] = true
+			switch x := v.(type) {
+			case *ssa.Call:
+				n := calleeName(x.Common())
+				if strings.HasSuffix(n, "ioutil.ReadFile") || strings.HasSuffix(n, "os.ReadFile") {
+					return true
+				}
+				// hash / string(bytes) of the content
+				for _, a := range x.Call.Args {
+					if walk(a, d+1) {
+						return true
+					}
+				}
+			case *ssa.Extract:
+				return walk(x.Tuple, d+1)
+			case *ssa.Convert:
+				// []byte(caIndex): the inline PEM itself
+				if _, isP := x.X.(*ssa.Parameter); isP {
+					return true
+				}
+				return walk(x.X, d+1)
+			case *ssa.Phi:
+				for _, e := range x.Edges {
+					if !walk(e, d+1) {
+						return false
+					}
+				}
+				return len(x.Edges) > 0
+			case *ssa.UnOp:
+				if al, ok := localAlloc(x); ok {
+					any := false
+					for _, r := range refs(al) {
+						if st, isS := r.(*ssa.Store); isS && st.Addr == ssa.Value(al) {
+							if !walk(st.Val, d+1) {
+								return false
+							}
+							any = true
+						}
+					}
+					return any
+				}
+			case *ssa.MakeInterface:
+				return walk(x.X, d+1)
+			case *ssa.Slice:
+				return walk(x.X, d+1)
+			}
+			return false
+		}
+		return walk(v, 0)
+	}
+	n := 0
+	for _, rs := range returnSites(fn, 0) {
+		if isNilConst(rs.val) {
+			continue
+		}
+		n++
+		key := fmt.Sprintf("%s:pool-reflects-current-ca#%d", fk, n)
+		ok, why := false, "unrecognised origin"
+		switch x := stripIface(rs.val).(type) {
+		case *ssa.Call:
+			if strings.HasSuffix(calleeName(x.Common()), "x509.NewCertPool") {
+				// filled from bytes obtained now
+				for _, r := range refs(x) {
+					if call, isC := r.(*ssa.Call); isC && methodName(call.Common()) == "AppendCertsFromPEM" && fromBytes(call.Common().Args[1]) {
+						ok, why = true, "new pool filled from the CA bytes read in this call"
+					}
+				}
+				if !ok {
+					why = "new pool not filled from the CA bytes of this call"
+				}
+			}
+		case *ssa.TypeAssert:
+			// value loaded from package-level state: the lookup key must derive from the bytes
+			if ex, isEx := x.X.(*ssa.Extract); isEx {
+				if call, isC := ex.Tuple.(*ssa.Call); isC && methodName(call.Common()) == "Load" {
+					args := call.Common().Args
+					if fromBytes(args[len(args)-1]) {
+						ok, why = true, "cached under a key derived from the CA bytes"
+					} else {
+						why = "taken from a cache whose key is not derived from the CA bytes (a file path names different content after a rotation)"
+					}
+				}
+			}
+		}
+		c.Check("C13.R3", key, nearestPos(rs.at), ok, why, "GetX509Pool can return a pool that does not reflect the configured CA as it is now ("+why+"): after the CA file is replaced, rebuilt TLS contexts keep trusting the old CA and reject the configured one")
+	}
+	if n < 1 {
+		c.Unresolved("C13.R3", "non-nil pool returns of GetX509Pool")
+	}
+}
